@@ -63,6 +63,8 @@ def main():
         out["demo_passes_without_change"] = ok0
         out["demo_without"] = msg0
         r = sh(f"git apply {d}/patch.diff", cwd=wt)
+        if r.returncode != 0:
+            r = sh(f"git apply --3way {d}/patch.diff", cwd=wt)
         out["applies"] = r.returncode == 0
         if r.returncode == 0:
             n, ok, failed = suite(wt)
